@@ -688,7 +688,67 @@ def r13(ctx):
         raise AnalysisBroken('C16.R13: the getDefault call for the level column was not found in Message::create')
 
 
+def r14(ctx):
+    ctx.rule('C16.R14', 'levels are compared as they were written, letter case included ("contains exactly that level"): in the '
+             'sources that produce or look up level strings no variable that is folded to lower or upper case (FileReader::tolower, '
+             'tolower/toupper, also inside a transform) reaches a place where a level is kept or asked for - a constructor or '
+             'function parameter called level / levels, the member m_level, the ACL map m_userLevels; folding both sides '
+             'consistently still lets the granted level inst open a message of level INST', minimum=8)
+    fb = ctx.fb
+    n = 0
+    seen = set()
+    pnames = {}
+    for f in fb.functions:
+        pnames.setdefault(f.name, [p_['name'] for p_ in f.params])
+    for fn in fb.functions:
+        if not fn.relfile.startswith(('src/lib/ebus/message.', 'src/ebusd/mainloop.', 'src/ebusd/datahandler.')) or not fn.nodes or (fn.name, fn.sig) in seen:
+            continue
+        seen.add((fn.name, fn.sig))
+        folded = {}
+        charfold = None
+        for c in fn.calls():
+            v = fn.nodes[c]
+            cal = (v.get('callee') or '')
+            last = cal.split('::')[-1]
+            if last in ('tolower', 'toupper') and v.get('args'):
+                a = fn.nodes[fn.strip(v['args'][0], casts=True)]
+                if a.get('k') == 'UnaryOperator' and a.get('op') == '&':
+                    t = fn.nodes[fn.strip(a['ch'][0], casts=True)]
+                    if t.get('name'):
+                        folded[t['name']] = c
+                elif cal in ('tolower', 'toupper', '::tolower', '::toupper'):
+                    charfold = c
+            if last == 'transform' and any(fn.key(a_) in ('tolower', 'toupper', '::tolower', '::toupper') for a_ in v.get('args', [])):
+                t = fn.key(v['args'][0]).split('.')[0]
+                folded[t] = c
+        # sinks
+        sinks = []
+        for c in fn.calls():
+            v = fn.nodes[c]
+            names = pnames.get(v.get('callee')) or []
+            for i, a in enumerate(v.get('args', [])):
+                if i < len(names) and names[i] in ('level', 'levels'):
+                    sinks.append((c, a, '%s(%s)' % ((v.get('callee') or '').split('::')[-1], names[i])))
+        for nid, d, rhs, op, lhs in fn.assignments():
+            if lhs is not None and rhs is not None and any(m_ in fn.key(lhs) for m_ in ('m_userLevels', 'm_level')):
+                sinks.append((nid, rhs, fn.key(lhs)[:30]))
+        for i in fn.inits:
+            if i.get('member') in ('m_level', 'm_levels'):
+                sinks.append((i['init'], i['init'], i['member']))
+        for site, expr, what in sinks:
+            n += 1
+            ctx.touch(fn)
+            used = set(fn.nodes[y].get('name') for y in fn.walk(expr) if fn.nodes[y]['k'] == 'DeclRefExpr')
+            hit = sorted(x for x in used if x in folded)
+            bad = bool(hit) or (charfold is not None and any(m_ in what for m_ in ('m_userLevels', 'm_level')))
+            ctx.ob('C16.R14', fn, site, not bad, 'level handed to %s in %s' % (what, fn.name.split('::', 1)[-1]),
+                   'not folded to one letter case before: %s%s' % (not bad, '' if not bad else ' (%s)' % (', '.join(hit) or 'characters are folded in this function')))
+    if n < 8:
+        raise AnalysisBroken('C16.R14: only %d places found where a level is kept or asked for' % n)
+
+
 def run(ctx):
+    r14(ctx)
     r13(ctx)
     r12(ctx)
     r11(ctx)
